@@ -27,6 +27,11 @@ def run_once(mod, hname, target, inputs, seed):
     except spec.NotReplayable as e:
         return "not-replayable", str(e)
     except Exception as e:
+        if target == "*":
+            for name, ok in spec.S.results:
+                if not ok:
+                    return "fails", "obligation false: " + name
+            return "not-evaluable", "%s: %s" % (type(e).__name__, e)
         if target.endswith("no-unexpected-exception"):
             return "fails", "%s: %s" % (type(e).__name__, e)
         # an exception before the target obligation: cannot evaluate it
@@ -38,9 +43,9 @@ def run_once(mod, hname, target, inputs, seed):
         return "fails", "native run raised before the obligation: %s: %s\n%s" % (
             type(e).__name__, e, traceback.format_exc()[-600:])
     for name, ok in spec.S.results:
-        if name == target and not ok:
-            return "fails", "obligation false"
-    seen = any(name == target for name, _ in spec.S.results)
+        if (name == target or target == "*") and not ok:
+            return "fails", "obligation false: " + name
+    seen = any(name == target for name, _ in spec.S.results) or target == "*"
     return ("holds" if seen else "not-reached"), ""
 
 
@@ -81,15 +86,24 @@ def main(argv):
     inputs = d.get("inputs") or {}
     tries = [("model", inputs)]
     rng = random.Random(d.get("seed", 0))
+    seed0 = d.get("seed", 0)
     for k in range(n_search):
+        # inputs the model does not mention are drawn from the seeded generator: vary the seed as well
         tries.append(("search-%d" % k, perturb(rng, inputs, 0.05 if k < n_search // 2 else 0.5)))
     last = ("holds", "")
-    for tag, inp in tries:
-        st, msg = run_once(mod, hname, target, inp, d.get("seed", 0))
+    for n_, (tag, inp) in enumerate(tries):
+        sd = seed0 if tag == "model" else seed0 + n_
+        st, msg = run_once(mod, hname, target, inp, sd)
         if tag == "model":
             last = (st, msg)
         if st == "fails":
-            print(json.dumps(dict(status="fails", how=tag, inputs=inp, message=msg), default=str))
+            from pyvc import spec
+            full = dict(getattr(spec.S, "drawn", {}))
+            full.update(inp)
+            out = dict(status="fails", how=tag, inputs=full, seed=sd, message=msg)
+            if msg.startswith("obligation false: "):
+                out["obligation"] = msg[len("obligation false: "):]
+            print(json.dumps(out, default=str))
             return 1
     print(json.dumps(dict(status=last[0], message=last[1], tried=len(tries)), default=str))
     return 0
